@@ -26,6 +26,8 @@ type schedState struct {
 	cur        *Thread
 	preempts   int
 	maxPreempt int
+	delayBound int // >= 0: delay-bounded scheduling (deterministic default choice, at most delayBound deviations)
+	delays     int
 	aborted    interface{}
 	schedPts   int
 	finished   bool
@@ -33,7 +35,7 @@ type schedState struct {
 
 func (e *Exec) initThreads(maxPreempt int) {
 	main := &Thread{id: 0, resume: make(chan struct{}, 1), vc: vclock{0: 1}}
-	e.sch = &schedState{threads: []*Thread{main}, cur: main, maxPreempt: maxPreempt}
+	e.sch = &schedState{threads: []*Thread{main}, cur: main, maxPreempt: maxPreempt, delayBound: -1}
 }
 
 func (t *Thread) enabled() bool { return !t.done && (t.pred == nil || t.pred()) }
@@ -60,7 +62,16 @@ func (e *Exec) yield(pred func() bool, what string) {
 		if meEnabled {
 			opts = append(opts, me)
 		}
-		if !meEnabled || s.preempts < s.maxPreempt {
+		if s.delayBound >= 0 {
+			for _, t := range s.threads {
+				if t != me && t.enabled() {
+					opts = append(opts, t)
+				}
+			}
+			if s.delays >= s.delayBound && len(opts) > 1 {
+				opts = opts[:1]
+			}
+		} else if !meEnabled || s.preempts < s.maxPreempt {
 			for _, t := range s.threads {
 				if t != me && t.enabled() {
 					opts = append(opts, t)
@@ -73,6 +84,9 @@ func (e *Exec) yield(pred func() bool, what string) {
 		k := 0
 		if len(opts) > 1 && !e.fifoSched {
 			k = e.choose(len(opts), "sched")
+			if s.delayBound >= 0 && k > 0 {
+				s.delays++
+			}
 		}
 		next := opts[k]
 		if next == me {
@@ -181,8 +195,14 @@ func (e *Exec) exitThread(t *Thread) {
 		panic(violationFound{"deadlock: all remaining goroutines blocked; " + e.blockedSummary()})
 	}
 	k := 0
+	if s.delayBound >= 0 && s.delays >= s.delayBound && len(opts) > 1 {
+		opts = opts[:1]
+	}
 	if len(opts) > 1 && !e.fifoSched {
 		k = e.choose(len(opts), "sched")
+		if s.delayBound >= 0 && k > 0 {
+			s.delays++
+		}
 	}
 	s.cur = opts[k]
 	opts[k].resume <- struct{}{}
@@ -203,6 +223,10 @@ func (e *Exec) quiesce() {
 			}
 		}
 		if all {
+			// like a join: everything the finished goroutines did happens-before what follows
+			for _, t := range s.threads[1:] {
+				me.vc.join(t.vc)
+			}
 			return
 		}
 		anyEnabled := false
